@@ -1,13 +1,19 @@
-//! C19: generators and executor (see DESIGN.md section 4, C19).
+//! C19: the C API is equivalent to the Rust API and robust to bad arguments
+//! (see DESIGN.md section 4, C19).  Generators in c19/gen.rs, executor + oracle in c19/exec.rs.
 use crate::rng::Rng;
-use serde_json::{json, Value};
+use serde_json::Value;
+
+mod exec;
+mod ffi;
+mod gen;
+mod json;
 
 /// generated cases for this property (each a JSON object with "kind": "c19…")
-pub fn gen(_r: &mut Rng, _thorough: bool, _count: Option<usize>) -> Vec<Value> {
-    vec![]
+pub fn gen(r: &mut Rng, thorough: bool, count: Option<usize>) -> Vec<Value> {
+    gen::gen(r, thorough, count)
 }
 
 /// run one case against the real code; returns {"out": …, "oracle": […], "feat": {…}}
-pub fn exec(_case: &Value, _tag: &str) -> Value {
-    json!({"out": {"err": "not implemented"}})
+pub fn exec(case: &Value, tag: &str) -> Value {
+    exec::exec(case, tag)
 }
